@@ -18,6 +18,7 @@ func init() {
 			obs = append(obs, c.RegionOrder()...)
 			in := pkgPred("save/region")
 			obs = append(obs, c.TLGObs(in, in, false)...)
+			obs = append(obs, c.ErrFlow(in, in)...)
 			return obs
 		},
 	}
@@ -27,7 +28,7 @@ func init() {
 			obs := c.RegionOrigin()
 			for _, o := range c.RegionOrder() {
 				switch o.Key {
-				case "region:setHead-own-coordinates", "region:header-mirrored", "region:load-visits-every-entry":
+				case "region:setHead-own-coordinates", "region:header-mirrored", "region:load-visits-every-entry", "region:refusal-before-mutation":
 					obs = append(obs, o)
 				}
 			}
@@ -39,6 +40,7 @@ func init() {
 		Run: func(c *Ctx) []core.Ob {
 			obs := c.RCONFrame()
 			obs = append(obs, c.RCONPolarity()...)
+			obs = append(obs, c.RCONReqID()...)
 			obs = append(obs, filterObs(c.NoReadAhead(), func(o core.Ob) bool { return o.Key != "scope" || true })...)
 			in := recvPred("net", "RCONConn")
 			obs = append(obs, c.TLGObs(in, in, false)...)
@@ -48,7 +50,10 @@ func init() {
 	Props["C18"] = PropDef{
 		Explanation: "R-POLARITY + R-ORIGIN: VerifySignature returns true only when rsa.VerifyPKCS1v15 returned nil and the key operand is the package-level key parsed from the embedded DER; PublicKey.Verify returns that verdict or false. Not decided: the offline UUID value, the session-hash value and the equality of the two authDigest copies (value-level arithmetic).",
 		Run: func(c *Ctx) []core.Ob {
-			return c.SignaturePolarity()
+			obs := c.SignaturePolarity()
+			obs = append(obs, c.OfflineUUIDInputs()...)
+			obs = append(obs, c.SignatureHashOrder()...)
+			return obs
 		},
 	}
 }
